@@ -55,11 +55,14 @@ def main():
             r["data"] = {k: [hx(v) for v in vs] for k, vs in data.items()}
             # pointwise reference: separate decays at the returned times
             ref = {}
+            points = []
             for t in times:
                 d = readout(inv.decay(t, c["tunit"]), c["kind"], uc)
+                points.append([[k, hx(v)] for k, v in d.items()])
                 for k, v in d.items():
                     ref.setdefault(k, []).append(hx(v))
             r["ref"] = ref
+            r["points"] = points     # per time point: the separate decay's read-out in its own order (input of the Coq model `assemble`)
             df = inv.decay_time_series_pandas(tp, **kw)
             r["df_cols"] = [str(x) for x in df.columns]
             r["df_index"] = [hx(x) for x in df.index]
